@@ -1,13 +1,71 @@
 //! Verification hook (compiled only with `--cfg quinn_rs_quinn_verif`).
+//!
+//! Component: `pending_acks` — the range bookkeeping of the real [`PendingAcks`] (the packet
+//! numbers we still owe an ACK for), driven by peer-chosen packet numbers in arbitrary order.
+//!
+//! Times are integer microseconds relative to one `Instant` taken per case.
+//! ops:
+//!   [0, packet, now_us]   insert_one(packet, now)
+//!   [1, max]              subtract_below(max)
+//!   [2, now_us]           ack_delay(now)   (adds the delay in microseconds after the ranges)
+//! observation of every op: [n, start_0, end_0, ..., start_{n-1}, end_{n-1}] (half-open ranges of
+//! `ranges()`, ascending), op 2 appends `ack_delay` in microseconds.
 #![allow(missing_docs, dead_code, unused_imports, unreachable_pub, clippy::all)]
 use super::{Ops, Outs};
+use crate::{
+    Duration, Instant,
+    connection::spaces::{PacketSpace, PendingAcks},
+};
+
+fn observe(p: &PendingAcks) -> Vec<i128> {
+    let mut o = vec![p.ranges().len() as i128];
+    for r in p.ranges().iter() {
+        o.push(r.start as i128);
+        o.push(r.end as i128);
+    }
+    o
+}
+
+fn pending_acks(ops: &Ops) -> Outs {
+    let base = Instant::now();
+    let at = |t: i128| base + Duration::from_micros(t as u64);
+    let mut p = PacketSpace::new(base).pending_acks;
+    ops.iter()
+        .map(|op| match op[0] {
+            0 => {
+                p.insert_one(op[1] as u64, at(op[2]));
+                observe(&p)
+            }
+            1 => {
+                p.subtract_below(op[1] as u64);
+                observe(&p)
+            }
+            2 => {
+                let d = p.ack_delay(at(op[1]));
+                let mut o = observe(&p);
+                o.push(d.as_micros() as i128);
+                o
+            }
+            _ => vec![-1],
+        })
+        .collect()
+}
 
 /// Interpret `ops` for component `comp`; `None` if `comp` is not served by this module.
-pub(crate) fn run(_comp: &str, _ops: &Ops) -> Option<Outs> {
-    None
+pub(crate) fn run(comp: &str, ops: &Ops) -> Option<Outs> {
+    match comp {
+        "pending_acks" => Some(pending_acks(ops)),
+        _ => None,
+    }
 }
 
 /// Constants of this component for `coq/gen/Constants.v`.
+///
+/// `MAX_PATH_RESPONSES` is function-local in `PathResponses::push` and is therefore measured
+/// behaviourally (see `path_responses::max_path_responses_probe`).
 pub(crate) fn constants() -> Vec<(&'static str, i128)> {
-    vec![]
+    vec![
+        ("MAX_ACK_BLOCKS", crate::connection::spaces::VERIF_MAX_ACK_BLOCKS as i128),
+        ("MAX_PATH_RESPONSES", super::path_responses::max_path_responses_probe()),
+    ]
 }
